@@ -67,6 +67,34 @@ static std::string prog_str(const Program& p)
   return s;
 }
 
+static std::vector<Op> alphabet(int rank, int R);
+static int parse_any(const char*& c) { if (*c == '*') { c++; return ANY; } int v = 0; while (*c >= '0' && *c <= '9') v = v * 10 + (*c++ - '0'); return v; }
+static Program parse_prog(const char* c, int R)
+{
+  Program p(R);
+  int r = 0;
+  while (*c) {
+    if (*c == '|') { r++; c++; continue; }
+    if (*c == ',') { c++; continue; }
+    Op o{0, 0, 0, 0, 0, 0, 0};
+    char t = *c++; c++;            // type letter and '('
+    auto szc = [](char x) { return x == 'S' ? 0 : x == 'M' ? 1 : 2; };
+    if (t == 'S' || t == 'I' || t == 'Y' || t == 'B') { o.type = t == 'S' ? SEND : t == 'I' ? ISEND : t == 'Y' ? SSEND : BSEND; o.peer = parse_any(c); c++; o.tag = parse_any(c); c++; o.sz = szc(*c++); }
+    else if (t == 'R' || t == 'J') { o.type = t == 'R' ? RECV : IRECV; o.rpeer = parse_any(c); c++; o.rtag = parse_any(c); c++; o.cap = *c++ == 's'; }
+    else if (t == 'X') { o.type = SENDRECV; o.peer = parse_any(c); c++; o.tag = parse_any(c); c++; o.sz = szc(*c++); c++; o.rpeer = parse_any(c); c++; o.rtag = parse_any(c); }
+    else { o.type = t == 'P' ? PROBE : IPROBE; o.rpeer = parse_any(c); c++; o.rtag = parse_any(c); }
+    c++;                           // ')'
+    if (r < R) p[r].push_back(o);
+  }
+  return p;
+}
+
+static std::vector<Op> alphabet(int rank, int R, int mask)
+{
+  std::vector<Op> all = alphabet(rank, R), a;
+  for (auto& o : all) if (mask & (1 << o.type)) a.push_back(o);
+  return a;
+}
 static std::vector<Op> alphabet(int rank, int R)
 {
   std::vector<Op> a;
@@ -288,13 +316,16 @@ int main(int argc, char** argv)
   if (argc < 5) { MPI_Finalize(); return 2; }
   int R = atoi(argv[1]), bound = atoi(argv[2]), shard = atoi(argv[3]), nshards = atoi(argv[4]);
   long only = -1, after_i = -1; bool verbose = false;
-  int A = 16, D = 64, after_v = -1, onlyvar = -1, skipclass = 0;
+  const char* single = nullptr; const char* odarg = nullptr;
+  int A = 16, D = 64, after_v = -1, onlyvar = -1, skipclass = 0, opmask = 0x1ff;
   long dummy[32] = {0};
   long* score = dummy;
   for (int a = 5; a < argc; a++) {
     sscanf(argv[a], "only=%ld", &only); sscanf(argv[a], "A=%d", &A); sscanf(argv[a], "D=%d", &D); sscanf(argv[a], "onlyvar=%d", &onlyvar);
-    sscanf(argv[a], "after=%ld:%d", &after_i, &after_v); sscanf(argv[a], "skipclass=%d", &skipclass);
+    sscanf(argv[a], "after=%ld:%d", &after_i, &after_v); sscanf(argv[a], "skipclass=%d", &skipclass); sscanf(argv[a], "ops=%d", &opmask);
     if (!strcmp(argv[a], "verbose")) verbose = true;
+    if (!strncmp(argv[a], "prog=", 5)) single = argv[a] + 5;
+    if (!strncmp(argv[a], "od=", 3)) odarg = argv[a] + 3;
     if (!strncmp(argv[a], "score=", 6) && rank == 0) {
       int fd = open(argv[a] + 6, O_RDWR);
       if (fd >= 0) { score = (long*)mmap(nullptr, 4096, PROT_READ | PROT_WRITE, MAP_SHARED, fd, 0); close(fd); }
@@ -315,7 +346,7 @@ int main(int argc, char** argv)
   const int nvariants = 3;
 
   std::vector<std::vector<Op>> alpha(R);
-  for (int r = 0; r < R; r++) alpha[r] = alphabet(r, R);
+  for (int r = 0; r < R; r++) alpha[r] = alphabet(r, R, opmask);
   // distributions of `bound` operations over the ranks, at most 3 each
   std::vector<std::vector<int>> dists;
   { std::vector<int> k(R, 0);
@@ -325,13 +356,41 @@ int main(int argc, char** argv)
   long states = 0, transitions = 0, truncs = 0, anysrc = 0, mixed = 0, outcomes_total = 0, skipped = 0;
   auto publish = [&]() { long c[] = {generated, balanced, kept, deadlocking, leftover, overflow, run, multi, states, transitions, truncs, anysrc, mixed, outcomes_total, nviol, skipped};
                          for (int i = 0; i < 16; i++) score[2 + i] = c[i]; };
-  for (auto& k : dists) {
+  // od=<dist>:<index>:<d0>,<d1>,...  resumes the enumeration at that odometer position (whose balanced index is <index>)
+  int od_dist = -1; long od_index = -1; std::vector<int> od_digits;
+  if (odarg) { const char* c = odarg; od_dist = parse_any(c); c++; od_index = parse_any(c); c++; while (*c) { od_digits.push_back(parse_any(c)); if (*c == ',') c++; } }
+  Program singleP;
+  if (single) { singleP = parse_prog(single, R); dists.assign(1, std::vector<int>(R, 0)); for (int r = 0; r < R; r++) dists[0][r] = (int)singleP[r].size(); }
+  for (size_t di = 0; di < dists.size(); di++) {
+    auto& k = dists[di];
+    if ((int)di < od_dist) continue;
     int n = 0; for (int v : k) n += v;
     std::vector<int> od(n, 0), owner;
     for (int r = 0; r < R; r++) for (int j = 0; j < k[r]; j++) owner.push_back(r);
+    if ((int)di == od_dist) { od = od_digits; index = od_index - 1; }
+    if (single) {     // position the odometer on the given program
+      for (int r = 0; r < R; r++) alpha[r] = alphabet(r, R);
+      int j = 0;
+      for (int r = 0; r < R; r++) for (auto& o : singleP[r]) {
+        int f = -1;
+        for (size_t a = 0; a < alpha[r].size(); a++) if (!memcmp(&alpha[r][a], &o, sizeof(Op))) f = (int)a;
+        if (f < 0) { if (!rank) printf("HARNESS-ERROR operation not in the alphabet\n"); MPI_Finalize(); return 2; }
+        od[j++] = f;
+      }
+      only = 0; index = -1;
+    }
     bool more = true;
     while (more) {
-      // ---- candidate program = od
+      // ---- this simulation owns the programs whose (distribution, first two operations) number is = shard mod nshards
+      if (!single && only < 0) {
+        long c = (long)di;
+        for (int j = 0; j < 2 && j < n; j++) c = c * (long)alpha[owner[j]].size() + od[j];
+        if (c % nshards != shard) {      // jump over the whole sub-enumeration
+          for (int j = 2; j < n; j++) od[j] = (int)alpha[owner[j]].size() - 1;
+          goto next_candidate;
+        }
+      }
+      { // ---- candidate program = od
       generated++;
       // cheap necessary condition before building anything: every rank receives exactly as many messages as are sent to it
       int sends_to[8] = {0}, recvs_at[8] = {0};
@@ -341,16 +400,25 @@ int main(int argc, char** argv)
       if (ok) {
         balanced++;
         index++;
-        if ((only < 0 && index % nshards == shard) || index == only) {
+        if (only < 0 || index == only) {
           Program P(R);
           for (int j = 0; j < n; j++) P[owner[j]].push_back(alpha[owner[j]][od[j]]);
           bool resumed_past = index < after_i;                   // everything up to `after` was done by a previous simulation
           bool trunc_possible = false;
           for (int r = 0; r < R; r++) for (auto& o : P[r]) if (has_recv(o) && o.cap)
             for (int r2 = 0; r2 < R; r2++) for (auto& o2 : P[r2]) if (has_send(o2) && o2.peer == r && o2.sz > 0 && (o.rpeer == ANY || o.rpeer == r2) && (o.rtag == ANY || o.rtag == o2.tag)) trunc_possible = true;
+          // class bit 1: a sender sends a message of class M/L and later one of class S to the same rank (the small one
+          // travels through another SMPI mailbox)
+          bool small_after_big = false;
+          for (int r = 0; r < R; r++) for (size_t i = 0; i < P[r].size(); i++) for (size_t i2 = i + 1; i2 < P[r].size(); i2++)
+            if (has_send(P[r][i]) && has_send(P[r][i2]) && P[r][i].peer == P[r][i2].peer && P[r][i].sz > 0 && P[r][i2].sz == 0) small_after_big = true;
+          // class bit 2 (value 4): a rank posts receives of both capacities (they are posted in different SMPI mailboxes)
+          bool mixed_caps = false;
+          for (int r = 0; r < R; r++) { bool sm = false, bg = false; for (auto& o : P[r]) if (has_recv(o)) (o.cap ? sm : bg) = true; if (sm && bg) mixed_caps = true; }
+          int pclass = (trunc_possible ? 1 : 0) | (small_after_big ? 2 : 0) | (mixed_caps ? 4 : 0);
           if (resumed_past) goto next_candidate;
-          if (only >= 0 && rank == 0) printf("P index=%ld trunc=%d prog=%s\n", index, (int)trunc_possible, prog_str(P).c_str());
-          if ((skipclass & 1) && trunc_possible) { skipped++; goto next_candidate; }
+          if ((only >= 0 || single) && rank == 0) printf("P index=%ld class=%d prog=%s\n", index, pclass, prog_str(P).c_str());
+          if (skipclass & pclass) { skipped++; goto next_candidate; }
           {
           Model M(P);
           M.run();
@@ -372,7 +440,7 @@ int main(int argc, char** argv)
               if (index == after_i && v <= after_v) continue;
               if (onlyvar >= 0 && v != onlyvar) continue;
               MPI_Barrier(sync);
-              if (rank == 0) { publish(); score[0] = index; score[1] = v; }
+              if (rank == 0) { publish(); score[0] = index; score[1] = v; score[18] = (long)di; score[19] = n; for (int j = 0; j < n; j++) score[20 + j] = od[j]; }
               if (rank == 0) { for (auto& o : g_recv) o = Obs{-1, 0, 0, 0, 0, 0}; for (auto& o : g_probe) o = Obs{-1, 0, 0, 0, 0, 0}; memset(g_bad, 0, sizeof g_bad); }
               MPI_Barrier(sync);
               run_rank(P, M, rank, comm, z);
@@ -445,8 +513,10 @@ int main(int argc, char** argv)
           }
         }
       }
+      }
       next_candidate:
       // ---- next candidate
+      if (single) break;
       int j = n - 1;
       while (j >= 0 && od[j] + 1 == (int)alpha[owner[j]].size()) od[j--] = 0;
       if (j < 0) more = false; else od[j]++;
